@@ -28,6 +28,10 @@ pub trait Battery: Form + Clone + PartialEq + Debug + Send + Sync + 'static {
     /// repeated fields overwrite); they are excluded from the "accepted input is a re-spelling
     /// of the model" comparison (the round-trip laws still cover them).
     const OPAQUE_PATHS: &'static [&'static str] = &[];
+    /// The body of the record is a field of type `Value` (see `body_normal`).
+    const VALUE_BODY: bool = false;
+    /// Printing and re-reading the type is another property's subject (C09 for `Value`).
+    const SKIP_RECON_ROUNDTRIP: bool = false;
     fn instances(p: &Pools) -> Vec<Self>;
     fn normal(&self) -> Self {
         self.clone()
@@ -615,9 +619,22 @@ pub fn field_values() -> Vec<Value> {
     v.push(Value::Record(vec![Attr::of("t")], vec![]));
     v.push(Value::Record(vec![Attr::of(("t", Value::Int32Value(1)))], vec![Item::Slot(Value::text("k"), Value::Int32Value(1))]));
     v.push(Value::Record(vec![Attr::of("t"), Attr::of("u")], vec![Item::ValueItem(Value::Int32Value(1))]));
-    v.push(Value::Record(vec![], vec![Item::ValueItem(Value::Extant)]));
     v.push(Value::Record(vec![], vec![Item::ValueItem(Value::Record(vec![], vec![]))]));
     v
+}
+
+/// What a `Value` used as the *body* of a record reads back as: in Recon a record body `{}` is
+/// no body, and a body consisting of one value item is that item (`@a {7}` is `@a 7`), so these
+/// cannot be told apart once they are the body of an attributed record.
+pub fn body_normal(v: &Value) -> Value {
+    match v {
+        Value::Record(attrs, items) if attrs.is_empty() && items.is_empty() => Value::Extant,
+        Value::Record(attrs, items) if attrs.is_empty() && items.len() == 1 => match &items[0] {
+            Item::ValueItem(x) => x.clone(),
+            _ => v.clone(),
+        },
+        ow => ow.clone(),
+    }
 }
 
 #[derive(Form, Debug, PartialEq, Clone)]
@@ -633,7 +650,19 @@ pub struct ValBody {
     #[form(body)]
     pub b: Value,
 }
-battery!(ValBody, "ValBody", "Value as body", |p, out| { cart!(out; h in [0, 1], b in field_values(); ValBody { h, b }); });
+impl Battery for ValBody {
+    const NAME: &'static str = "ValBody";
+    const COVERS: &'static str = "Value as body";
+    const VALUE_BODY: bool = true;
+    fn instances(_p: &Pools) -> Vec<Self> {
+        let mut out = vec![];
+        cart!(out; h in [0, 1], b in field_values(); ValBody { h, b });
+        out
+    }
+    fn normal(&self) -> Self {
+        ValBody { h: self.h, b: body_normal(&self.b) }
+    }
+}
 
 #[derive(Form, Debug, PartialEq, Clone)]
 pub struct ValAttr {
@@ -673,14 +702,29 @@ pub enum ValEnum {
     #[form(tag = "command")]
     Command(#[form(header_body)] Value, #[form(body)] Option<Value>),
 }
-battery!(ValEnum, "ValEnum", "envelope-like enum: header + Value body, header_body Value + Option<Value> body", |p, out| {
-    cart!(out; node in ["".to_string(), "/n".to_string()], body in field_values(); ValEnum::Event { node, body });
-    let mut opts: Vec<Option<Value>> = vec![None];
-    opts.extend(atoms_small().into_iter().map(Some));
-    opts.push(Some(Value::Record(vec![], vec![])));
-    opts.push(Some(Value::Record(vec![Attr::of("t")], vec![Item::Slot(Value::text("k"), Value::Int32Value(1))])));
-    cart!(out; hb in atoms_small(), b in opts; ValEnum::Command(hb, b));
-});
+impl Battery for ValEnum {
+    const NAME: &'static str = "ValEnum";
+    const COVERS: &'static str = "envelope-like enum: header + Value body, header_body Value + Option<Value> body";
+    const VALUE_BODY: bool = true;
+    fn instances(_p: &Pools) -> Vec<Self> {
+        let mut out = vec![];
+        cart!(out; node in ["".to_string(), "/n".to_string()], body in field_values(); ValEnum::Event { node, body });
+        let mut opts: Vec<Option<Value>> = vec![None];
+        opts.extend(atoms_small().into_iter().map(Some));
+        opts.push(Some(Value::Record(vec![], vec![])));
+        opts.push(Some(Value::Record(vec![Attr::of("t")], vec![Item::Slot(Value::text("k"), Value::Int32Value(1))])));
+        cart!(out; hb in atoms_small(), b in opts; ValEnum::Command(hb, b));
+        out
+    }
+    fn normal(&self) -> Self {
+        match self {
+            ValEnum::Event { node, body } => ValEnum::Event { node: node.clone(), body: body_normal(body) },
+            // an empty body is no body
+            ValEnum::Command(hb, Some(b)) if *b == Value::Record(vec![], vec![]) => ValEnum::Command(hb.clone(), None),
+            ow => ow.clone(),
+        }
+    }
+}
 
 // ------------------------------------------------------------------ built-in Form implementations
 
@@ -736,13 +780,19 @@ pub struct BuiltinPlaces {
     pub t: (i32, String),
     #[form(header)]
     pub r: RetryStrategy,
-    #[form(attr)]
-    pub unit: (),
     pub ts: Timestamp,
 }
-battery!(BuiltinPlaces, "BuiltinPlaces", "Duration header_body, tuple attr, RetryStrategy header, () attr, Timestamp slot", maps = [], opaque = ["@BuiltinPlaces/item[0]/", "@BuiltinPlaces/r:/"], |p, out| {
-    cart!(out; d in durations(), t in [(0, "".to_string()), (-2, "b c".to_string())], r in retries(), ts in timestamps(); BuiltinPlaces { d, t, r, unit: (), ts });
+battery!(BuiltinPlaces, "BuiltinPlaces", "Duration header_body, tuple attr, RetryStrategy header, Timestamp slot (whole seconds)", maps = [], opaque = ["@BuiltinPlaces/item[0]/", "@BuiltinPlaces/r:/"], |p, out| {
+    cart!(out; d in durations(), t in [(0, "".to_string()), (-2, "b c".to_string())], r in retries(), ts in timestamps()[..2]; BuiltinPlaces { d, t, r, ts });
 });
+
+#[derive(Form, Debug, PartialEq, Clone)]
+pub struct UnitAttr {
+    #[form(attr)]
+    pub unit: (),
+    pub x: i32,
+}
+battery!(UnitAttr, "UnitAttr", "() as attr", |p, out| { cart!(out; x in p.i32s(); UnitAttr { unit: (), x }); });
 
 #[derive(Form, Debug, PartialEq, Clone)]
 pub struct NestedColls {
@@ -800,6 +850,7 @@ builtin_battery!(Vec<Named>, "Vec<Named>", maps = [], |p: &Pools| { let n = p.in
 impl Battery for Value {
     const NAME: &'static str = "Value";
     const COVERS: &'static str = "the generic model type";
+    const SKIP_RECON_ROUNDTRIP: bool = true;
     fn instances(p: &Pools) -> Vec<Self> {
         let mut v = field_values();
         v.push(Value::Int64Value(i64::MAX));
